@@ -7,6 +7,7 @@ the memory gate and the worker count, and records the history at the public upda
 """
 import copy
 import functools
+import os
 
 import numpy as np
 
@@ -1110,16 +1111,27 @@ def generate_c14(seed, tier):
     # float32 precision only where the second-moment cancellation (sum x^2 - n mean^2) is benign: with class means far from zero relative
     # to the noise the float32 accumulators lose the covariance's leading digits - rounding of the requested precision, not a defect, but not
     # comparable with a float64 model at 1e-3.  Such lifecycles run at float64 precision instead.
-    if scn['precision'] == 'float32':
+    cm = rng.stream(seed, 'common')
+    if L >= 2 and cm.random() < 0.12:
+        # common-mode noise (drift, supply ripple) much larger than the per-sample noise: the samples are strongly correlated, the pooled
+        # covariance is regular but ill-conditioned (cond ~ 5e3 / 2e6 / 1e9) and the classes are visible in the small directions only - an
+        # inverse that drops or damps those directions (a singular-value cutoff) gets every score wrong.  Judged with a tolerance that grows
+        # with cond * eps of the requested precision (execute_c14).
+        scn['common'] = cm.choice([60, 60, 1000, 30000])
+        if scn['common'] > 60:
+            scn['precision'] = 'float64'
+        if scn['common'] == 30000:
+            scn['tdtype'] = 'int16' if scn['tdtype'] == 'int16' else 'float32'
+    if scn['precision'] == 'float32' and not scn.get('common'):
         Tb_ = c14_data(scn)[0].astype('float64')
         a_ = scn['noise']
         if float((Tb_ ** 2).max()) / (a_ * (a_ + 1) / 3.0) > 1e3:
             scn['precision'] = 'float64'
-    if np.dtype(scn['tdtype']).kind == 'f':
+    if np.dtype(scn['tdtype']).kind == 'f' and not scn.get('common'):
         scn['scale'] = rng.stream(seed, 'scale').choice([1, 1, 1, 1e-4, 250.0])
         if scn['scale'] != 1 and scn['precision'] == 'float32' and scn['tdtype'] == 'float64':
             scn['precision'] = 'float64'
-    if L >= 2 and rng.stream(seed, 'zerocol').random() < 0.12:
+    if L >= 2 and rng.stream(seed, 'zerocol').random() < 0.12 and not scn.get('common'):
         scn['zero_col'] = rng.stream(seed, 'zerocol2').randrange(L)
     hs = rng.stream(seed, 'history')
     scn['build_twice'] = hs.random() < 0.12
@@ -1150,6 +1162,11 @@ def c14_data(scn):
     ptm = g.integers(0, k, (nm, 1)).astype('uint8')
     posm = (ptm[:, 0].astype(int) + scn['key']) % k
     Tm = posm[:, None] * gains[None, :] + g.integers(-a, a + 1, (nm, L))
+    if scn.get('common'):
+        gc = rng.np_stream(scn['table_seed'], 'c14common')
+        A = int(scn['common'])
+        Tb = Tb + gc.integers(-A, A + 1, (len(vals), 1))
+        Tm = Tm + gc.integers(-A, A + 1, (nm, 1))
     zc = scn.get('zero_col')
     if zc is not None and L >= 2:
         # one sample identically zero in every trace (padding after resynchronisation): the pooled covariance is exactly singular and the
@@ -1288,7 +1305,13 @@ def execute_c14(scn):
             mus, S, sc = c14_model(Tb, vb, classes, Tm, hyp)
             nzd = np.diag(S) != 0
             Sred = S[np.ix_(nzd, nzd)] if (nzd.any() and not nzd.all() and not S[~nzd].any() and not S[:, ~nzd].any()) else S
-            if np.linalg.cond(Sred) > 1e3:
+            kappa = float(np.linalg.cond(Sred))
+            # forward bound of an inverse computed from a covariance that carries rounding of the requested precision: ~ cond * eps, with a margin
+            illr = 64 * kappa * float(np.finfo(np.dtype(prec)).eps)
+            ill = kappa > 1e3 and bool(scn.get('common')) and illr <= 0.1
+            if ill:
+                probes['ill_conditioned_judged'] = 1
+            if kappa > 1e3 and not ill:
                 # ill-conditioned pooled covariance: pinv is not comparable across roundings (precondition, DESIGN 4.3)
                 return {'violation': None, 'inconclusive': True, 'digest': rng.digest(storage.events), 'case': 'illcond', 'nontrivial': False,
                         'faults': {}, 'probes': {'ill_conditioned_covariance': 1}, 'sim_time': storage.seq}
@@ -1302,7 +1325,7 @@ def execute_c14(scn):
             elif hasattr(att, 'pooled_covariance_inv'):
                 # the pseudo-inverse the matching phase uses (cond(S) <= 1e3 here): three digits looser, relative to the size of the inverse
                 Pm = np.linalg.pinv(S)
-                itol = tol * 1e3
+                itol = tol * 1e3 if not ill else illr
                 if not compare.close(att.pooled_covariance_inv, Pm, itol, itol * float(np.abs(Pm).max())):
                     violation = viol('covariance_inverse_differs_from_model', ['C14', 'covariance_inverse_differs_from_model'] + sig_tail,
                                      'maxdiff=%s' % compare.maxdiff(att.pooled_covariance_inv, Pm))
@@ -1366,6 +1389,9 @@ def execute_c14(scn):
                     att.run(mk_container(lo, hi, 'match%d' % j))
                 got = np.asarray(att.scores).ravel()
                 stol = tol * 10
+                if ill:
+                    # the scores are 10 - (mean squared distance): the bound is relative to the size of the distances
+                    stol = stol + illr * float(np.nanmax(np.abs(10 - sc))) if len(sc) else stol
                 if not popm.all():
                     # a candidate whose template is undefined has no defined score: static attack - compare the populated classes only;
                     # DPA attack - hypotheses range over all classes, nothing to compare
